@@ -106,7 +106,9 @@ def direct_part(report, rng, tier):
 
 
 FAULTS = [
-    # (statement template with MARK around the offending span, diagnostic kind)
+    # (statement template with «..» around every span the diagnostic must underline, diagnostic kind).
+    # Every single blank of a template is replaced by random trivia (blanks, tab, a comment), so
+    # spans are exercised with arbitrary spacing inside and around them.
     ("wire zq : 8; zq = «undefinedname9»;", "UndeclaredWireRead"),
     ("wire zq : «300»;", "InvalidWireWidth"),
     ("wire zq : 8; zq = «999999999999999999999999999999999999999999999»;", "InvalidConstant"),
@@ -125,14 +127,52 @@ FAULTS = [
     ("register «zzz» { }", "InvalidRegisterBankName"),
     ("wire zq : 8; zq = 1; «zq» = 2;", "DoubleAssignedWire"),
     ("«i10bytes» = 0;", "DoubleAssignedFixedOutWire"),
+    ("wire zq : 8; zq = [ pc == 0 : «0b11»; 1 : «0b111»; ];", "MismatchedMuxWidths"),
+    ("wire zq : 8; wire zr : 4; zq = 1; zr = 2; wire zs : 8; zs = «zq» & «zr»;", "MismatchedExprWidths"),
+    ("register xY { zr : 8 = «0b111»; } x_zr = Y_zr;", "MismatchedRegisterDefaultWidths"),
+    ("wire zw : 8; zw = 1; const ZK = «zw» + 1;", "NonConstantWireRead"),
+    ("register xY { «zr : 8 = 0»; }", "UnsetRegisterInputWire"),
+    ("wire «zq : 8»; zq = 1; wire «zq : 4»;", "RedeclaredWire"),
+    ("register xY { «zr : 8 = 0»; } x_zr = 1; «Y_zr» = 2;", "DoubleAssignedRegisterWire"),
+    ("register xY { «zr : 8 = 0»; } register qY { «zr : 8 = 0»; } x_zr = 1; q_zr = 1;", "DoubleDeclaredRegisterOutWire"),
+    ("const «ZK» = 1; «ZK» = 2;", "ConstantAssigned"),
+    ("wire «pc : 8»;", "RedeclaredBuiltinWire"),
+    ("1 «+» 2;", "UnrecognizedToken"),
+    ("wire «zq : 8 =» 1;", "WireAssignedInDeclaration"),
+    ("wire «zq =» 1;", "WireAssignedInDeclaration"),
+    ("register xY { «zr = 0»; }", "MissingRegisterWidth"),
+    ("const ZK «: 8» = 1;", "AddedConstWidth"),
+    ("wire zq : 8; «zq» [ 1 : 2; ];", "MissingAssignmentMux"),
+    ("register xY { «wire» zr : 8 = 0; }", "RegisterDeclaredWithWire"),
+    ("wire zq : 8; zq = «[ 1 : 1; pc == 0 : 2; ]»;", "UnreachableOptions"),
+    ("wire zq : 8; zq = 1 «1»;", "UnrecognizedToken"),
+    ("wire zq : 8; zq = «;»", "UnrecognizedToken"),
+    ("wire zq : 8; zq = 1; «}»", "UnrecognizedToken"),
+    ("wire zq : 8; zq = 1; «/*»never_closed", "UnterminatedComment"),
 ]
+TRIVIA = [" ", " ", " ", "  ", "   ", "\t", " /*c*/ ", "/**/ ", " \t "]
+
+
+def expand(rng, tmpl, plain):
+    """Replaces every blank of the template by random trivia; returns (statement, [(col, len)..])."""
+    out, spans, start = [], [], None
+    for ch in tmpl:
+        if ch == "«":
+            start = sum(len(x) for x in out)
+        elif ch == "»":
+            spans.append((start, sum(len(x) for x in out) - start))
+        elif ch == " " and not plain:
+            out.append(rng.choice(TRIVIA))
+        else:
+            out.append(ch)
+    return "".join(out), spans
 
 
 def located_part(report, rng, tier):
-    n = 600 if tier == "quick" else 12000
+    n = 1200 if tier == "quick" else 20000
     cases, lines = {}, []
     for i in range(n):
-        tmpl, kind = rng.choice(FAULTS)
+        tmpl, kind = FAULTS[i % len(FAULTS)] if i < 2 * len(FAULTS) else rng.choice(FAULTS)
         nlines = rng.randint(0, 30)
         filler = []
         for j in range(nlines):
@@ -142,25 +182,23 @@ def located_part(report, rng, tier):
             filler = ["# " + "x" * 5000] + filler
         pos = rng.choice([0, len(filler), rng.randint(0, len(filler))])
         indent = " " * rng.choice([0, 0, 3, 17])
-        stmt = indent + tmpl
+        body, spans = expand(rng, tmpl, plain=i < len(FAULTS))
+        stmt = indent + body
+        spans = [(c + len(indent), l) for c, l in spans]
         tail = ["pc = 0;", "Stat = STAT_AOK;"]
-        if rng.random() < 0.3:
+        if kind == "UnterminatedComment" or rng.random() < 0.3:
             all_lines = filler + tail + [stmt]            # the fault on the very last line
         else:
             all_lines = filler[:pos] + [stmt] + filler[pos:] + tail
         eol = rng.choice(["\n", "\n", "\r\n"])
         trailing = rng.random() < 0.6
         text = eol.join(all_lines) + (eol if trailing else "")
-        # expected location
         idx = all_lines.index(stmt)
-        col = stmt.index("«")
-        span = stmt[col + 1:stmt.index("»")]
-        clean = text.replace("«", "").replace("»", "")
         cid = "l%d" % i
-        cases[cid] = {"hcl": clean, "kind": kind, "line": idx + 1, "col": col, "len": len(span),
-                      "echo": stmt.replace("«", "").replace("»", ""), "last_line": idx == len(all_lines) - 1, "trailing_newline": trailing,
+        cases[cid] = {"hcl": text, "kind": kind, "line": idx + 1, "spans": spans,
+                      "echo": stmt, "last_line": idx == len(all_lines) - 1, "trailing_newline": trailing,
                       "eol": eol}
-        lines.append("%s front %s 1" % (cid, lib.hexs(clean)))
+        lines.append("%s front %s 1" % (cid, lib.hexs(text)))
     impl = lib.run_cases(lib.build_harness("dev"), lines)
     stats = collections.Counter()
     for cid, c in cases.items():
@@ -182,11 +220,16 @@ def located_part(report, rng, tier):
         if "Internal parser error" in out:
             report.violation("diag-internal-error", "internal parser error instead of a diagnostic", rep)
             continue
-        want_row = (c["line"], c["echo"], c["col"], c["len"])
-        hit = [r for r in regs if r[0] == "input.hcl" and r[1] == c["line"] and want_row in r[2]]
-        if not hit:
-            report.violation("diag-wrong-location:" + c["kind"],
-                             "%s fault at line %d col %d len %d: rendered regions %r" % (c["kind"], c["line"], c["col"], c["len"], [(r[0], r[1], r[2][:1]) for r in regs][:3]), rep)
+        if not any(l.startswith("reject") and (c["kind"] + "|") in l for l in blk):
+            report.violation("diag-wrong-kind:" + c["kind"], "expected a %s diagnostic: %s" % (c["kind"], [l[:120] for l in blk if l.startswith("reject")]), rep)
+            continue
+        for col, ln in c["spans"]:
+            want_row = (c["line"], c["echo"], col, ln)
+            hit = [r for r in regs if r[0] == "input.hcl" and r[1] == c["line"] and r[2] == [want_row]]
+            if not hit:
+                report.violation("diag-wrong-location:" + c["kind"],
+                                 "%s fault at line %d col %d len %d: rendered regions %r" % (c["kind"], c["line"], col, ln, [(r[0], r[1], [x[2:] for x in r[2]][:2]) for r in regs][:4]), rep)
+                break
     return len(cases), stats
 
 
@@ -199,8 +242,9 @@ def check(report, tier, seed):
     report.coverage["exhaustive"] = True
     report.coverage["rule"] = ("show_region on every text of length <= %d over the alphabet a, blank, LF, CR, e-acute, =, heart (12 sampled offset pairs each, "
                                "beyond both ends included) and random longer texts, vs the model; spans on one ASCII line additionally judged by the property's "
-                               "own statement (line = 1 + LFs before, echoed line, caret column and count); %d located fault kinds injected at first/middle/last "
-                               "line, any indentation, LF/CRLF, with/without final newline, after comments and 5 kB lines: rendered file name, line number, echo "
-                               "and carets compared with the generator's known position" % (4 if tier == "quick" else 5, len(FAULTS)))
+                               "own statement (line = 1 + LFs before, echoed line, caret column and count); %d located fault templates (every diagnostic variant that shows a location, all its spans) injected at "
+                               "first/middle/last line, any indentation, random blanks / tabs / comments between all tokens inside and around the spans, LF/CRLF, "
+                               "with/without final newline, after comments and 5 kB lines: rendered file name, line number, echo and carets of EVERY span "
+                               "compared with the generator's known position (a region must show exactly that one line)" % (4 if tier == "quick" else 5, len(FAULTS)))
     report.coverage["distribution"] = {"direct": n1, "direct_spec_checked": spec_checked, "located": n2, **{"kind_" + k: v for k, v in stats.items()}}
     report.coverage["samples"] = [{"user": "a = ❤\n", "s": 3, "e": 4}, FAULTS[0][0]]
